@@ -12,6 +12,35 @@ def split(txt):
     return m.groups()
 
 
+re_fortran_real = re.compile(r'^([-+]?(?:[0-9]+\.?[0-9]*|\.[0-9]+))'
+                             r'(?:[dD]([-+]?[0-9]+)|([-+][0-9]+))$')
+
+
+def to_float(token):
+    '''Convert a number as it may appear in an MCNP input file to a float.
+
+    In addition to the spellings understood by :func:`float`, MCNP accepts the
+    Fortran ones: a ``d`` exponent, and an exponent without any letter.
+
+    >>> to_float('1.5')
+    1.5
+    >>> to_float('-2e-3')
+    -0.002
+    >>> to_float('1.5d0')
+    1.5
+    >>> to_float('6.40875-2')
+    0.0640875
+    >>> to_float('.15+1')
+    1.5
+    '''
+    match = (re_fortran_real.match(token) if isinstance(token, str)
+             else None)
+    if match is not None:
+        mantissa, exp_d, exp_bare = match.groups()
+        return float(mantissa + 'e' + (exp_d or exp_bare))
+    return float(token)
+
+
 def expand_data_card(tokens, *, expected=None, dtype='float'):
     '''Expand the numerical data described by `tokens` into a full list of
     numbers, without any abbreviation.
@@ -89,7 +118,7 @@ def expand_data_card(tokens, *, expected=None, dtype='float'):
         elif last_char == 'm':
             if len(token) == 1:
                 raise ValueError('"m" data specifier requires a multiplier')
-            factor = float(token[:-1])
+            factor = to_float(token[:-1])
             result.append(result[-1] * factor)
         elif last_char == 'j':
             n_reps = int(token[:-1]) if len(token) > 1 else 1
@@ -98,7 +127,7 @@ def expand_data_card(tokens, *, expected=None, dtype='float'):
             result.extend(logspace(result[-1], tokens.pop(), token))
             consumed += 1
         else:
-            result.append(float(token))
+            result.append(to_float(token))
     if expected is not None and len(result) != expected:
         raise ValueError('expected exactly {:d} items in data card, found {:d}'
                          .format(expected, len(result)))
@@ -113,8 +142,8 @@ def linspace(lower_token, upper_token, n_vals_token):
     parsing `lower_token`, `upper_token` and `n_vals_token`, that must be
     strings.
     '''
-    upper = float(upper_token)
-    lower = float(lower_token)
+    upper = to_float(upper_token)
+    lower = to_float(lower_token)
     n_vals = int(n_vals_token[:-1]) if len(n_vals_token) > 1 else 1
     step = (upper - lower) / (n_vals + 1)
     yield from (float(lower+i*step) for i in range(1, n_vals+1))
@@ -129,8 +158,8 @@ def logspace(lower_token, upper_token, n_vals_token):
     parsing `lower_token`, `upper_token` and `n_vals_token`, that must be
     strings.
     '''
-    upper = float(upper_token)
-    lower = float(lower_token)
+    upper = to_float(upper_token)
+    lower = to_float(lower_token)
     if len(n_vals_token) >= 4 and n_vals_token[-4] == 'i':
         n_vals = int(n_vals_token[:-4]) if len(n_vals_token) > 4 else 1.0
     else:
